@@ -101,6 +101,14 @@ impl SimTarget for Value {
         let counted = self.count(|_, f| f.is_value());
         // (fragment counts are reported, not judged: their meaning is C05's subject)
         let _ = (values, counted);
+        // abandoned traversals: stopped half-way and deep inside, then dropped (dropping the iterator is
+        // part of traversing; it must not cost stack proportional to the depth either)
+        for stop in [n / 2, n.saturating_sub(2), 1] {
+            let mut t = self.traverse();
+            let _ = t.nth(stop);
+            drop(t);
+        }
+        let _ = self.traverse().take(n / 3 + 1).filter(|(_, f)| f.is_entry()).count();
         n
     }
     fn dispose(self) { drop_iteratively(self) }
